@@ -42,7 +42,8 @@ def gen_probe_case(rng, seed, idx, *, max_epochs=6, max_dur=12, allow_thin=True,
     case = {
         "idx": int(idx), "seed": int(seed),
         "spec": spec, "chains": int(rng.integers(1, max_chains + 1)),
-        "kernels": [{"keys": b, "needs_history": bool(rng.random() < 0.5)} for b in blocks],
+        # (some kernels report a non-zero error code from end_warmup: a warning for the user, nothing else)
+        "kernels": [{"keys": b, "needs_history": bool(rng.random() < 0.5), "warmup_error": int(rng.choice([0, 0, 2]))} for b in blocks],
         "shapes": shapes, "dtypes": dtypes, "chunk": chunk,
         "mode": str(rng.choice(list(modes))), "via": v,
         "engine_seed": int(rng.integers(0, 2 ** 31 - 1)),
@@ -187,7 +188,8 @@ def make_kernels(case, write=True):
                 tab[c, t] = code
         cls = ProbeKernelB if ki % 2 else ProbeKernel
         ks.append(cls(b["keys"], ki, nlog, prev_key=prev, needs_history=b["needs_history"],
-                              err_table=tab, write=write, identifier=kid(ki)))
+                              err_table=tab, write=write, identifier=kid(ki),
+                              warmup_error=(b.get("warmup_error", 0))))
     return ks
 
 
@@ -241,6 +243,17 @@ def build_engine(case, epochs, *, states=None, kernels=None, position_keys=None,
             else:
                 b.positions_included = list(position_keys.get("included", []))
                 b.positions_excluded = list(position_keys.get("excluded", []))
+        if case["idx"] % 3 == 0:
+            # an earlier engine was built from the same builder and has already run (and been extended): the engine
+            # built now starts from scratch all the same
+            from liesel.goose.epoch import EpochConfig, EpochType
+
+            pre = b.build()
+            pre.sample_next_epoch()
+            if len(epochs) > 1:
+                pre.sample_next_epoch()
+            else:
+                pre.append_epoch(EpochConfig(EpochType.BURNIN, case["chunk"], 1, None))
         eng = b.build()
     else:
         for k in kernels:
